@@ -78,4 +78,144 @@ Section Registry.
         * congruence.
     - injection H as <- <-. apply DelNoop; auto.
   Qed.
+
+  (** ** SetEACL *)
+  Inductive eacl_facts (c : cctx) (w : world) (e sig pub tok : bytes) (w' : world)
+      (ns : list wnotif) : Prop :=
+  | EaclDone (cid : bytes) (cn : cnr) (owner : bytes)
+      (Hcid : eacl_cid e = Some cid)
+      (Hc : cnrs (w_c w) !! cid = Some cn)
+      (Ho : owner_of_blob (c_val cn) = Halt owner)
+      (Hal : x_alpha c = true)
+      (Hpub : length pub = 33%nat)
+      (Hw : w' = mkW (set_eacl_rec (w_c w) cid (mkCnr e sig pub tok)) (w_b w) (w_cfg w) (w_n w) (w_id w))
+      (Hns : ns = [NEacl cid pub]).
+
+  Lemma set_eacl_inv c w e sig pub tok w' ns :
+    set_eacl c w e sig pub tok = Halt (w', ns) -> eacl_facts c w e sig pub tok w' ns.
+  Proof.
+    unfold Container.set_eacl. intros H. obind H as v Ev. obind H as cid Ec. obind H as oo Eo.
+    destruct oo as [owner|]; [|discriminate].
+    destruct (get_owner_some _ _ _ Eo) as (cn & Hc & Ho).
+    obind H as u Ea. apply oassert_true in Ea. obind H as u2 Ep. apply oassert_true in Ep.
+    apply Nat.eqb_eq in Ep. injection H as <- <-.
+    apply (EaclDone _ _ _ _ _ _ _ _ cid cn owner); auto.
+    unfold eacl_cid. rewrite Ev, Ec. reflexivity.
+  Qed.
+
+  (** ** The consistency invariant of the six indices *)
+  Definition owner_is (c : cnr) (o : bytes) : Prop := owner_of_blob (c_val c) = Halt o.
+
+  Record CInv (cs : cstate) : Prop := {
+    ci_cnr : forall cid c, cnrs cs !! cid = Some c ->
+             cid = cid_of (c_val c) /\ exists o, owner_is c o /\ oidx cs !! (o ++ cid) = Some cid;
+    ci_idx : forall k v, oidx cs !! k = Some v ->
+             exists c o, cnrs cs !! v = Some c /\ owner_is c o /\ k = o ++ v;
+    ci_dead : forall cid, cid ∈ tomb cs -> cnrs cs !! cid = None;
+    ci_eacl : forall cid e, eacls cs !! cid = Some e -> is_Some (cnrs cs !! cid);
+    ci_alias : forall cid d, aliases cs !! cid = Some d ->
+               is_Some (cnrs cs !! cid) /\ nonempty d = true;
+    ci_meta : forall cid, cid ∈ metas cs -> is_Some (cnrs cs !! cid)
+  }.
+
+  Lemma CInv_init root : CInv (cinit root).
+  Proof.
+    split; unfold cinit; cbn; intros *; try rewrite lookup_empty; try discriminate;
+      try (intros H; apply elem_of_empty in H; contradiction).
+  Qed.
+
+  Lemma owner_key_inj (o1 c1 o2 c2 : bytes) :
+    length o1 = 25%nat -> length o2 = 25%nat -> o1 ++ c1 = o2 ++ c2 -> o1 = o2 /\ c1 = c2.
+  Proof. intros H1 H2 H. apply app_inj_1; congruence. Qed.
+
+  Lemma owner_is_len c o : owner_is c o -> length o = 25%nat.
+  Proof. apply owner_of_blob_length. Qed.
+
+  Lemma owner_is_fun c o1 o2 : owner_is c o1 -> owner_is c o2 -> o1 = o2.
+  Proof. unfold owner_is. congruence. Qed.
+
+  (** [addContainer] (possibly after [PutMeta] has set the flag of the same id). *)
+  Lemma CInv_add cs cs0 blob o c' :
+    CInv cs ->
+    cnrs cs0 = cnrs cs -> oidx cs0 = oidx cs -> tomb cs0 = tomb cs -> eacls cs0 = eacls cs ->
+    aliases cs0 = aliases cs ->
+    (forall x, x ∈ metas cs0 -> x ∈ metas cs \/ x = cid_of blob) ->
+    owner_of_blob blob = Halt o -> c_val c' = blob -> cid_of blob ∉ tomb cs ->
+    CInv (add_container cs0 (cid_of blob) o c').
+  Proof.
+    intros [I1 I2 I3 I4 I5 I6] Ec Eo Et Ee Ea Hm Ho Hv Hnd.
+    set (cid := cid_of blob) in *.
+    assert (Hol : length o = 25%nat) by (eapply owner_of_blob_length; eauto).
+    split; unfold add_container; cbn [cnrs oidx tomb eacls aliases metas]; rewrite ?Ec, ?Eo, ?Et, ?Ee, ?Ea.
+    - intros k c Hk. destruct (decide (k = cid)) as [->|Hne].
+      + rewrite lookup_insert in Hk. injection Hk as <-. split; [rewrite Hv; reflexivity|].
+        exists o. split; [unfold owner_is; rewrite Hv; exact Ho|]. apply lookup_insert.
+      + rewrite lookup_insert_ne in Hk by congruence.
+        destruct (I1 _ _ Hk) as (Hcid & o0 & Ho0 & Hi). split; [exact Hcid|].
+        exists o0. split; [exact Ho0|]. rewrite lookup_insert_ne; [exact Hi|].
+        intros Heq. apply owner_key_inj in Heq as [_ Heq]; [congruence|exact Hol|eapply owner_is_len; eauto].
+    - intros k v Hk. destruct (decide (k = o ++ cid)) as [->|Hne].
+      + rewrite lookup_insert in Hk. injection Hk as <-. exists c', o.
+        rewrite lookup_insert. split; [reflexivity|]. split; [unfold owner_is; rewrite Hv; exact Ho|reflexivity].
+      + rewrite lookup_insert_ne in Hk by congruence.
+        destruct (I2 _ _ Hk) as (c0 & o0 & Hc0 & Ho0 & ->).
+        destruct (decide (v = cid)) as [->|Hv'].
+        * exfalso. destruct (I1 _ _ Hc0) as (Hcid & _). apply cid_inj in Hcid.
+          unfold owner_is in Ho0. rewrite <- Hcid in Ho0. rewrite Ho in Ho0. injection Ho0 as <-.
+          congruence.
+        * exists c0, o0. rewrite lookup_insert_ne by congruence. auto.
+    - intros k Hk. rewrite lookup_insert_ne; [apply I3; exact Hk|]. intros <-. contradiction.
+    - intros k e Hk. apply lookup_insert_is_Some'. right. eapply I4; eauto.
+    - intros k d Hk. destruct (I5 _ _ Hk) as [Hs Hd]. split; [|exact Hd].
+      apply lookup_insert_is_Some'. right. exact Hs.
+    - intros k Hk. apply lookup_insert_is_Some'. destruct (Hm _ Hk) as [Hk' | ->]; [right; eapply I6; eauto|left; reflexivity].
+  Qed.
+
+  Lemma CInv_set_alias cs cid d :
+    CInv cs -> is_Some (cnrs cs !! cid) -> nonempty d = true -> CInv (set_alias cs cid (Some d)).
+  Proof.
+    intros [I1 I2 I3 I4 I5 I6] Hs Hd. split; unfold set_alias; cbn [cnrs oidx tomb eacls aliases metas]; auto.
+    intros k d' Hk. destruct (decide (k = cid)) as [->|Hne].
+    - rewrite lookup_insert in Hk. injection Hk as <-. auto.
+    - rewrite lookup_insert_ne in Hk by congruence. eauto.
+  Qed.
+
+  Lemma CInv_set_eacl cs cid e :
+    CInv cs -> is_Some (cnrs cs !! cid) -> CInv (set_eacl_rec cs cid e).
+  Proof.
+    intros [I1 I2 I3 I4 I5 I6] Hs. split; unfold set_eacl_rec; cbn [cnrs oidx tomb eacls aliases metas]; auto.
+    intros k e' Hk. destruct (decide (k = cid)) as [->|Hne]; [exact Hs|].
+    rewrite lookup_insert_ne in Hk by congruence. eauto.
+  Qed.
+
+  (** [removeContainer] after the alias marker has been dropped. *)
+  Lemma CInv_remove cs cs1 cid cn owner :
+    CInv cs -> cnrs cs !! cid = Some cn -> owner_is cn owner ->
+    cnrs cs1 = cnrs cs -> oidx cs1 = oidx cs -> tomb cs1 = tomb cs -> eacls cs1 = eacls cs ->
+    metas cs1 = metas cs -> aliases cs1 = delete cid (aliases cs) ->
+    CInv (remove_container cs1 cid owner).
+  Proof.
+    intros [I1 I2 I3 I4 I5 I6] Hc Ho Ec Eo Et Ee Em Ea.
+    assert (Hol : length owner = 25%nat) by (eapply owner_is_len; eauto).
+    split; unfold remove_container; cbn [cnrs oidx tomb eacls aliases metas]; rewrite ?Ec, ?Eo, ?Et, ?Ee, ?Ea, ?Em.
+    - intros k c Hk. apply lookup_delete_Some in Hk as [Hne Hk].
+      destruct (I1 _ _ Hk) as (Hcid & o0 & Ho0 & Hi). split; [exact Hcid|].
+      exists o0. split; [exact Ho0|]. rewrite lookup_delete_ne; [exact Hi|].
+      intros Heq. apply owner_key_inj in Heq as [_ Heq]; [congruence|exact Hol|eapply owner_is_len; eauto].
+    - intros k v Hk. apply lookup_delete_Some in Hk as [Hne Hk].
+      destruct (I2 _ _ Hk) as (c0 & o0 & Hc0 & Ho0 & ->).
+      destruct (decide (v = cid)) as [->|Hv'].
+      + exfalso. rewrite Hc in Hc0. injection Hc0 as <-.
+        rewrite (owner_is_fun _ _ _ Ho Ho0) in Hne. congruence.
+      + exists c0, o0. rewrite lookup_delete_ne by congruence. auto.
+    - intros k Hk. apply elem_of_union in Hk as [Hk|Hk].
+      + apply elem_of_singleton in Hk as ->. apply lookup_delete.
+      + apply lookup_delete_None. right. apply I3. exact Hk.
+    - intros k e Hk. apply lookup_delete_Some in Hk as [Hne Hk].
+      rewrite lookup_delete_ne by congruence. eauto.
+    - intros k d Hk. apply lookup_delete_Some in Hk as [Hne Hk].
+      rewrite lookup_delete_ne by congruence. eauto.
+    - intros k Hk. apply elem_of_difference in Hk as [Hk Hne].
+      rewrite lookup_delete_ne; [eauto|]. intros <-. apply Hne. apply elem_of_singleton. reflexivity.
+  Qed.
 End Registry.
